@@ -815,3 +815,9 @@ B('C20', 'forall operands printed without brackets', IEXPR,
   "            if isinstance(arg, (ITE, Forall)):", "            if isinstance(arg, ITE):", 'C20.P2', 'open-operand(Forall)')
 B('C19', 'integrals printed with the priority of a function application', 'integral/expr.py',
   "        elif self.ty in (DERIV, INTEGRAL, EVAL_AT, INDEFINITEINTEGRAL, DIFFERENTIAL):\n            return 10", "        elif self.ty in (DERIV, INTEGRAL, EVAL_AT, INDEFINITEINTEGRAL, DIFFERENTIAL):\n            return 95", 'C19.E5', 'open-construct(Integral)')
+B('C15', 'input clauses used as given', SATF,
+  "    cnf = [list(dict.fromkeys(clause)) for clause in cnf]\n", "    cnf = copy(cnf)\n", 'C15.X7', 'learned-clause-has-distinct-literals')
+N('C15', 'input clauses normalised through set()', SATF,
+  "    cnf = [list(dict.fromkeys(clause)) for clause in cnf]\n", "    cnf = [sorted(set(clause)) for clause in cnf]\n")
+B('C17', 'reflexive case of an explanation not handled', CONGC,
+  "            if u == v:\n                # Nothing to explain: the closure records no path for u = u\n                return ProofTerm.reflexive(self.index[u])\n", "", 'C17.G5', 'request(get_proofterm(u1, u2))')
